@@ -33,8 +33,10 @@ func (g *vGenN) GenerateType(c Context, t *types.Named) error {
 	return vDo(g.name, c, t.Obj().Pkg().Path(), t.Obj().Name(), &g.seen, &g.helper)
 }
 
-var vManyGenNames = []string{"g0", "generator1withaverylongnamemorethan32chars", "g2", "gen3", "g4", "gen5sixteenchars", "g6", "g7", "g8"}
-var vManyPkgNames = []string{"p0", "p1", "pkg2withalongdirectoryname", "p3", "p4", "p5", "p6", "p7", "p8"}
+var vManyGenNames = []string{"g0", "generator1withaverylongnamemorethan32chars", "api.rec", "gen3", "g4", "gen5sixteenchars", "g6", "g7", "g8"}
+
+// two packages are both named v1
+var vManyPkgNames = []string{"p0", "apis/core/v1", "apis/batch/v1", "pkg3withalongdirectoryname", "p4", "p5", "p6", "p7", "p8", "p9", "p10", "p11"}
 var vManyTypeNames = []string{"T0", "T1", "LongTypeNameNumberTwoWithManyLetters", "T3", "T4", "T5", "T6", "T7", "T8", "T9"}
 
 type vMany struct {
@@ -61,7 +63,7 @@ func (m *vMany) build(fresh bool) {
 	w := m.w
 	w.pkgs, w.local, w.sums = map[string]gengotypesPackage{}, map[string]bool{}, map[string]string{}
 	for _, rel := range m.pkgs {
-		names := []string{rel + ".go"}
+		names := []string{vBaseName(rel) + ".go"}
 		if fresh {
 			for _, g := range m.gens {
 				names = append(names, vBase+"."+g+".go")
@@ -76,7 +78,10 @@ func (m *vMany) build(fresh bool) {
 		if fresh {
 			w.addPkg(rel, true, "h1:"+rel, nil, names, specs)
 		} else {
+			saved := vGenNames
+			vGenNames = m.gens
 			w.addPkgNoFiles(rel, true, "h1:"+rel, specs)
+			vGenNames = saved
 		}
 	}
 }
@@ -99,7 +104,7 @@ func (m *vMany) pick() (g, p, t int) {
 // vDeclIndex: index of the declaration of variable <type>_<gen> in a file, -1 if
 // absent (layout-insensitive: the formatter may group and align declarations).
 func vDeclIndex(d, typ, gen string) int {
-	name := typ + "_" + gen
+	name := typ + "_" + vIdent(gen)
 	for i := 1; i+len(name) < len(d); i++ {
 		if d[i:i+len(name)] == name && (d[i-1] == ' ' || d[i-1] == '\t') && d[i+len(name)] == ' ' {
 			return i
@@ -139,9 +144,9 @@ func Verif_C07_Many(npkg, ngen, ntype int) {
 	wantSum := ""
 	for x, rel := range m.pkgs {
 		dir := m.w.root + "/" + rel
-		expected[dir+"/"+rel+".go"] = true
+		expected[dir+"/"+vBaseName(rel)+".go"] = true
 		expected[dir+"/notes.txt"] = true
-		verifsym.Assert(after[dir+"/"+rel+".go"] == before[dir+"/"+rel+".go"] && after[dir+"/notes.txt"] == before[dir+"/notes.txt"], "a file that is not a generated output was modified")
+		verifsym.Assert(after[dir+"/"+vBaseName(rel)+".go"] == before[dir+"/"+vBaseName(rel)+".go"] && after[dir+"/notes.txt"] == before[dir+"/notes.txt"], "a file that is not a generated output was modified")
 		_, stale := after[dir+"/"+vBase+".gone.go"]
 		verifsym.Assert(!stale, "the generated file of a generator that no longer exists was not removed")
 		for y, g := range m.gens {
@@ -298,6 +303,42 @@ func Verif_C05_ManyAlone(npkg, ngen, ntype int) {
 		b, okB := together[vGenFile(m.w, m.pkgs[pi], g)]
 		verifsym.Assert(okA && okB, "generated file missing")
 		verifsym.Assert(a == b, "a package's generated file differs depending on which other packages are generated in the same run")
+	}
+	verifsym.Reach("end")
+}
+
+// Verif_C07_ManyTwice: everything renders; the run is repeated on its own result
+// (forced, then unforced): every generated file is still there with the same
+// bytes, nothing else appears.
+func Verif_C07_ManyTwice(npkg, ngen, ntype int) {
+	vReset()
+	m := vNewMany(npkg, ngen, ntype)
+	m.build(true)
+	err := m.w.exec(true, true, nil, m.generators()...)
+	verifsym.Assert(err == nil, "Execute fails")
+	first := vSnapshot()
+	for _, rel := range m.pkgs {
+		for _, g := range m.gens {
+			_, ok := first[vGenFile(m.w, rel, g)]
+			verifsym.Assert(ok, "a generator rendered declarations but its file is missing")
+		}
+	}
+	for run := 0; run < 2; run++ {
+		vReset()
+		m.build(false)
+		// the loader sees the generated files of the previous run as files of the package
+		err = m.w.exec(true, run == 0, nil, m.generators()...)
+		verifsym.Assert(err == nil, "a later run fails")
+		again := vSnapshot()
+		for f, d := range first {
+			d2, ok := again[f]
+			verifsym.Assert(ok, "a file written by a run is gone after running again on the result")
+			verifsym.Assert(!ok || d2 == d, "running again on the result changed a file")
+		}
+		for f := range again {
+			_, had := first[f]
+			verifsym.Assert(had, "running again on the result created a new file")
+		}
 	}
 	verifsym.Reach("end")
 }
